@@ -647,7 +647,8 @@ Inductive kev :=
 | KConnect (fd : N) (peer : sockaddr) | KAccept (fd : N) | KSend (fd : N) (buf : list N)
 | KRecv (fd n : N) | KShutdown (fd : N) | KClose (fd : N) | KDeliver (p : packet) | KEgress
 | KUdpSend (fd : N) (pl : list N) (dst : sockaddr)
-| KUdpConnect (fd : N) (peer : sockaddr) | KUdpSendC (fd : N) (pl : list N).
+| KUdpConnect (fd : N) (peer : sockaddr) | KUdpSendC (fd : N) (pl : list N)
+| KSetIsn (v : N).
 
 Definition kstep (k : kernel) (e : kev) : kernel :=
   match e with
@@ -665,6 +666,7 @@ Definition kstep (k : kernel) (e : kev) : kernel :=
   | KUdpSend fd pl d => fst (k_udp_send_to k fd pl d)
   | KUdpConnect fd p => fst (k_udp_connect k fd p)
   | KUdpSendC fd pl => fst (k_udp_send k fd pl)
+  | KSetIsn v => set_isn k v
   end.
 
 Definition krun (k : kernel) (es : list kev) : kernel := fold_left kstep es k.
@@ -691,6 +693,7 @@ Proof.
   - apply KInv_k_udp_send_to, H.
   - apply KInv_k_udp_connect, H.
   - apply KInv_k_udp_send, H.
+  - split; [|reflexivity]. eapply KInv_same; [| | |exact H]; reflexivity.
 Qed.
 
 Lemma KInv_krun es k : KInv k -> KInv (krun k es) /\ cfg (krun k es) = cfg k.
@@ -855,6 +858,9 @@ Proof.
     destruct (get_host w h) as [k|] eqn:G; [|assumption]. pose proof (WReach_get _ _ _ H G) as Hk.
     pose proof (kreach_kstep k (KUdpSendC fd (repeat 7 (N.to_nat n))) Hk) as H2. cbn in H2.
     destruct (k_udp_send k fd (repeat 7 (N.to_nat n))) as [k2 [|u|er]]; cbn in *; apply WReach_set_host; assumption.
+  - (* ESetIsn *)
+    destruct (get_host w h) as [k|] eqn:G; [|assumption]. pose proof (WReach_get _ _ _ H G) as Hk.
+    apply WReach_set_host; [assumption|]. apply (kreach_kstep k (KSetIsn v) Hk).
 Qed.
 
 Lemma WReach_init c v n : WReach (init_world c v n).
